@@ -1,9 +1,9 @@
 #!/bin/bash
-# harvest_seed.sh <PROP> <seed-id>: take the uncommitted change + demo of /tmp/wt_<PROP> into
+# harvest_seed.sh <PROP> <seed-id> [worktree]: take the uncommitted change + demo of /tmp/wt_<PROP> into
 # seeded/<seed-id>/ and confirm it in a fresh scratch worktree (tests pass with it, demo fails with it
 # and passes without it).
 set -u
-P=$1; SID=$2; WT=/tmp/wt_$P; D=/verif/seeded/$SID
+P=$1; SID=$2; WT=${3:-/tmp/wt_$P}; D=/verif/seeded/$SID
 mkdir -p $D
 git -C $WT diff -- apischema > $D/patch.diff
 cp $WT/demo_$P.py $D/demo.py 2>/dev/null || { echo "no demo"; exit 2; }
